@@ -4,6 +4,8 @@ package main
 
 import (
 	"fmt"
+	"regexp"
+	"sort"
 	"strings"
 
 	"github.com/protolambda/zrnt/eth2/gossipval"
@@ -13,6 +15,46 @@ import (
 type Gen struct {
 	E     *Env
 	Count map[string]int
+	Total int
+	buf   []Case
+}
+
+var hexLit = regexp.MustCompile(`0x[0-9a-f]{17,}`)
+
+// Flush: hex literals of roots/domains that occur several times are named once in the shard header
+// (Coq needs ~3 ms to read a 256-bit numeral), then the cases go to the Env.
+func (g *Gen) Flush() {
+	freq := map[string]int{}
+	for _, c := range g.buf {
+		for _, m := range hexLit.FindAllString(c.Coq, -1) {
+			freq[m]++
+		}
+	}
+	names := map[string]string{}
+	var defs []string
+	var keys []string
+	for k, n := range freq {
+		if n >= 6 {
+			keys = append(keys, k)
+		}
+	}
+	sort.Strings(keys)
+	for i, k := range keys {
+		names[k] = fmt.Sprintf("r%d", i)
+		defs = append(defs, fmt.Sprintf("Definition r%d : N := %s.", i, k))
+	}
+	g.E.Header += "\n" + strings.Join(defs, "\n")
+	for _, c := range g.buf {
+		c.Coq = hexLit.ReplaceAllStringFunc(c.Coq, func(m string) string {
+			if n, ok := names[m]; ok {
+				return n
+			}
+			return m
+		})
+		g.E.Add(c)
+	}
+	g.buf = nil
+	g.E.Extra["x_named_roots"] = len(keys)
 }
 
 func verdictName(r gossipval.GossipValidatorResult) string {
@@ -53,7 +95,8 @@ func (g *Gen) Emit(topic, what string, v *View, f *Facts, msgCoq string, msgJSON
 	coq := fmt.Sprintf("GC %s (%s) %s %s", f.Coq(), msgCoq, verdict, CoqList(marks))
 	kind := topic + "/" + what + "=" + verdict
 	g.Count[kind]++
-	g.E.Add(Case{Coq: coq, Kind: kind, NonTrivial: true, Key: fmt.Sprintf("%s|%d", kind, g.Count[kind]),
+	g.Total++
+	g.buf = append(g.buf, Case{Coq: coq, Kind: kind, NonTrivial: true, Key: fmt.Sprintf("%s|%d", kind, g.Count[kind]),
 		JSON: map[string]interface{}{
 			"world": v.W.Name, "topic": topic, "what": what, "message": msgJSON, "go_verdict": verdict, "go_error": errText, "go_marks": strings.Join(marks, "; "),
 			"clock_ms": v.NowMs, "slot_after_minus": uint64(v.SlotAfter(-500_000_000)), "slot_after_plus": uint64(v.SlotAfter(500_000_000)),
